@@ -83,12 +83,26 @@ class Gen:
         ps.append(("a%d" % i, None))
     return ps
 
-  def func(self, name, indent, is_method):
+  def func(self, name, indent, is_method, kind="method"):
     r = self.r
-    k = r.choice([0, 1, 1, 2, 2, 3])
+    k = r.choice([0, 1, 1, 2, 2, 3]) if kind != "property" else 0
     ps = self.params(k)
-    sig = (["self"] if is_method else []) + [p if a is None else "%s: %s" % (p, a) for p, a in ps]
-    names = tuple(p for p, _ in ps) + (("self",) if is_method and r.random() < 0.2 else ())
+    first = {"method": ["self"], "property": ["self"], "classmethod": ["cls"], "staticmethod": []}[kind] if is_method else []
+    sig = first + [p if a is None else "%s: %s" % (p, a) for p, a in ps]
+    # defaults on a suffix of the parameters, then optional *args / keyword-only / **kwargs
+    if ps and r.random() < 0.25:
+      j = r.randrange(len(ps))
+      for q in range(j, len(ps)):
+        pn, an = ps[q]
+        sig[len(first) + q] += (" = " if an else "=") + (default_expr(an, self) if an else "None")
+    extra = r.random()
+    if extra < 0.08:
+      sig.append("*args")
+    elif extra < 0.14:
+      sig.append("*, kw: int = 0")
+    elif extra < 0.18:
+      sig.append("**kwargs")
+    names = tuple(p for p, _ in ps) + (("self",) if is_method and kind == "method" and r.random() < 0.2 else ())
     ret = ""
     if r.random() < 0.35:
       ra = self.annot()
@@ -100,7 +114,8 @@ class Gen:
         body.append("if _cond(): return %s" % self.expr(2, names))
       body.append("return %s" % self.expr(2, names))
     pad = " " * indent
-    return pad + "def %s(%s)%s:\n" % (name, ", ".join(sig), ret) + "".join(pad + "  " + b + "\n" for b in body)
+    deco = "" if kind in ("method",) or not is_method else pad + "@%s\n" % kind
+    return deco + pad + "def %s(%s)%s:\n" % (name, ", ".join(sig), ret) + "".join(pad + "  " + b + "\n" for b in body)
 
   def klass(self, idx):
     r = self.r
@@ -136,6 +151,11 @@ class Gen:
         lines.append("    pass\n")
     for i in range(r.choice([0, 1, 2])):
       lines.append(self.func("m%d_%d" % (idx, i), 2, True))
+    if r.random() < 0.3:
+      kind = r.choice(["property", "staticmethod", "classmethod"])
+      lines.append(self.func("%s%d" % (kind[0], idx), 2, True, kind))
+    if self.classes and r.random() < 0.15:
+      lines.append("  N%d = %s\n" % (idx, r.choice(self.classes)[0]))       # a class as a class attribute
     if len(lines) == 1:
       lines.append("  pass\n")
     self.classes.append((name, nargs))
@@ -143,9 +163,28 @@ class Gen:
 
   def program(self):
     r = self.r
-    out = ["from typing import Any, Callable, Optional, Union\n", "def _cond(): return bool(_cond)\n"]
+    out = ["from typing import Any, Callable, Generic, NamedTuple, Optional, TypeVar, Union\n",
+           "def _cond(): return bool(_cond)\n"]
     for i in range(self.n_classes):
       out.append(self.klass(i))
+    if r.random() < 0.4:
+      out.append("T = TypeVar('T')\n"
+                 "class G0(Generic[T]):\n"
+                 "  def __init__(self, x: T) -> None:\n"
+                 "    self.x = x\n"
+                 "  def get(self) -> T:\n"
+                 "    return self.x\n"
+                 "  def wrap(self):\n"
+                 "    return %s\n" % r.choice(["[self.x]", "(self.x, 0)", "{'k': self.x}", "(self.x if _cond() else None)"]))
+      for i in range(r.choice([1, 2])):
+        e1, e2 = self.expr(1), self.expr(1)
+        out.append("g%d = %s\n" % (i, r.choice(["G0(%s)" % e1, "(G0(%s) if _cond() else G0(%s))" % (e1, e2),
+                                                  "[G0(%s)]" % e1])))
+      out.append("def mk0(a: int) -> G0[%s]:\n  return G0(%s)\n" %
+                 r.choice([("int", "a"), ("list[int]", "[a]"), ("Optional[str]", "None")]))
+    if r.random() < 0.2:
+      out.append("class NT(NamedTuple):\n  a: int\n  b: %s\n" % self.annot(allow_cls=False))
+      self.classes.append(("NT", 2))
     nf = r.choice([1, 2, 3])
     for i in range(nf):
       out.append(self.func("f%d" % i, 0, False))
@@ -270,6 +309,27 @@ def type_to_any(c):
   return c
 
 
+def subst_tv(c, sub):
+  if isinstance(c, str):
+    return sub.get(c, c)
+  if c[0] == "U":
+    ms = set()
+    for m in c[1]:
+      m2 = subst_tv(m, sub)
+      if isinstance(m2, tuple) and m2[0] == "U":
+        ms.update(m2[1])
+      else:
+        ms.add(m2)
+    return mk_union(ms)
+  if c[0] == "T":
+    return ("T",) + tuple(subst_tv(x, sub) for x in c[1:])
+  if c[0] == "F":
+    return ("F", tuple(subst_tv(x, sub) for x in c[1]), subst_tv(c[2], sub))
+  if c[0] == "G":
+    return ("G", c[1]) + tuple(subst_tv(x, sub) for x in c[2:])
+  return c
+
+
 def has_typevar(c):
   if isinstance(c, str):
     return c.startswith("~")
@@ -384,6 +444,9 @@ def sig_args(sig, classes, depth, skip_self):
 
 
 def ctor_args(cls, classes, depth):
+  if any(getattr(b, "name", "").split(".")[-1] == "NamedTuple" for b in cls.bases):
+    es = [mk_expr(c.type, classes, depth) for c in cls.constants]
+    return None if any(e is None for e in es) else es
   for c in mro_of(cls, classes):
     for m in c.methods:
       if m.name == "__init__":
@@ -391,6 +454,21 @@ def ctor_args(cls, classes, depth):
           return None
         return sig_args(m.signatures[0], classes, depth, True)
   return []
+
+
+def class_tparams(cls):
+  """names of the class's type parameters (the raw parse leaves Class.template empty; AdjustTypeParameters fills
+  it at load time from the bases)."""
+  from pytype.pytd import pytd
+  if cls.template:
+    return [t.name for t in cls.template]
+  out = []
+  gen = [b for b in cls.bases if isinstance(b, pytd.GenericType) and b.base_type.name in ("typing.Generic", "Generic")]
+  for b in gen or [b for b in cls.bases if isinstance(b, pytd.GenericType)]:
+    for p in b.parameters:
+      if isinstance(p, pytd.TypeParameter) and p.name not in out:
+        out.append(p.name)
+  return out
 
 
 def mro_of(cls, classes):
@@ -418,16 +496,42 @@ def derive_downstream(stub_text):
   exp = {}
   def public(n):
     return not n.startswith("_")
+  def generic_probes(prefix, expr, ct, where):
+    """ct = canonical type of `expr`; if it is an instance of a generic class of A, read its attributes and call its
+    parameterless methods, expecting the declared type with the class's type parameters substituted."""
+    if not (isinstance(ct, tuple) and ct[0] == "G" and ct[1] in classes and class_tparams(classes[ct[1]])):
+      return
+    cls = classes[ct[1]]
+    names = ["~" + t for t in class_tparams(cls)]
+    if len(names) != len(ct) - 2:
+      return
+    sub = dict(zip(names, ct[2:]))
+    for a in cls.constants:
+      if public(a.name):
+        nm = "%s_%s" % (prefix, a.name)
+        lines.append("%s = %s.%s\n" % (nm, expr, a.name))
+        e = subst_tv(canon(a.type), sub)
+        if not has_typevar(e):
+          exp[nm] = ("type", e, "%s.%s" % (where, a.name))
+    for m in cls.methods:
+      if public(m.name) and len(m.signatures) == 1 and m.kind == pytd.MethodKind.METHOD and \
+         len(m.signatures[0].params) == 1 and not m.signatures[0].starargs and not m.signatures[0].starstarargs:
+        nm = "%s_%s" % (prefix, m.name)
+        lines.append("%s = %s.%s()\n" % (nm, expr, m.name))
+        e = subst_tv(canon(m.signatures[0].return_type), sub)
+        if not has_typevar(e):
+          exp[nm] = ("type", e, "%s.%s()" % (where, m.name))
   for c in ast.constants:
     n = c.name.split(".")[-1]
     if public(n):
       lines.append("v_%s = A.%s\n" % (n, n))
       exp["v_" + n] = ("type", canon(c.type), "A." + n)
+      generic_probes("q_" + n, "A." + n, canon(c.type), "A." + n)
   for a in ast.aliases:
     n = a.name.split(".")[-1]
     if not public(n) or isinstance(a.type, pytd.Module):
       continue
-    if isinstance(a.type, (pytd.Function, pytd.Constant)) or n in ("Any", "Callable", "Optional", "Union"):
+    if isinstance(a.type, (pytd.Function, pytd.Constant)) or n in ("Any", "Callable", "Optional", "Union", "Generic", "NamedTuple", "TypeVar"):
       continue
     lines.append("v_%s = A.%s\n" % (n, n))
     if isinstance(a.type, pytd.Type):
@@ -445,6 +549,7 @@ def derive_downstream(stub_text):
         lines.append("r_%s = A.%s(%s)\n" % (n, n, ", ".join(args)))
         if not has_typevar(ret):
           exp["r_" + n] = ("type", ret, "A.%s(...)" % n)
+          generic_probes("q_r_" + n, "r_" + n, ret, "A.%s(...)" % n)
   for cn, c in classes.items():
     if not public(cn):
       continue
@@ -454,6 +559,8 @@ def derive_downstream(stub_text):
     if args is None:
       continue
     lines.append("i_%s = A.%s(%s)\n" % (cn, cn, ", ".join(args)))
+    if class_tparams(c):
+      continue                      # the instance's parameters depend on the constructor arguments
     exp["i_" + cn] = ("type", cn, "A.%s()" % cn)
     seen = set()
     for k in mro_of(c, classes):
@@ -471,15 +578,20 @@ def derive_downstream(stub_text):
         if mn in seen or not public(mn) or len(m.signatures) != 1:
           continue
         seen.add(mn)
-        if m.kind != pytd.MethodKind.METHOD:
+        ret = canon(m.signatures[0].return_type)
+        if m.kind == pytd.MethodKind.PROPERTY:
+          lines.append("m_%s_%s = i_%s.%s\n" % (cn, mn, cn, mn))
+          if not has_typevar(ret):
+            exp["m_%s_%s" % (cn, mn)] = ("type", ret, "A.%s().%s" % (cn, mn))
           continue
-        margs = sig_args(m.signatures[0], classes, 2, True)
+        skip_first = m.kind != pytd.MethodKind.STATICMETHOD
+        margs = sig_args(m.signatures[0], classes, 2, skip_first)
         if margs is None:
           continue
-        lines.append("m_%s_%s = i_%s.%s(%s)\n" % (cn, mn, cn, mn, ", ".join(margs)))
-        ret = canon(m.signatures[0].return_type)
+        recv = "i_%s" % cn if m.kind == pytd.MethodKind.METHOD else "A.%s" % cn
+        lines.append("m_%s_%s = %s.%s(%s)\n" % (cn, mn, recv, mn, ", ".join(margs)))
         if not has_typevar(ret):
-          exp["m_%s_%s" % (cn, mn)] = ("type", ret, "A.%s().%s(...)" % (cn, mn))
+          exp["m_%s_%s" % (cn, mn)] = ("type", ret, "%s.%s(...)" % (recv.replace("i_", "A.") + ("()" if recv.startswith("i_") else ""), mn))
   return "".join(lines), exp
 
 
@@ -588,12 +700,26 @@ def check_pair(src_a, workdir, transports=TRANSPORTS):
       res.update(status="violation", transport=tr, kind=attr[0][0], what="downstream reports %r" % (attr[0],))
       return res
     res.setdefault("downstream_errors", {})[tr] = errs
+    # a call the oracle built badly (wrong-arg-types, missing-parameter, ...) says nothing about the hand-off:
+    # the names assigned on such lines, and everything read from such an instance, are not compared
+    b_lines = src_b.split("\n")
+    tainted = set()
+    for e in errs:
+      if 0 < e[1] <= len(b_lines):
+        tainted.add(b_lines[e[1] - 1].split(" = ")[0])
+    for t in list(tainted):
+      if t.startswith("i_"):
+        c = t[2:]
+        tainted.update(n for n in exp if n.startswith("a_%s_" % c) or n.startswith("m_%s_" % c))
+    res["tainted"] = res.get("tainted", 0) + len([n for n in exp if n in tainted])
     try:
       got = downstream_defs(pyi)
     except Exception as e:  # pylint: disable=broad-except
       res.update(status="violation", transport=tr, kind="unparseable-stub", what=str(e)[:300])
       return res
     for name, e in sorted(exp.items()):
+      if name in tainted:
+        continue
       g = got.get(name)
       bad = compare(e, g)
       res["kinds"][e[0]] = res["kinds"].get(e[0], 0) + 1
